@@ -1,4 +1,5 @@
 """Which units decide which property (DESIGN.md section 5)."""
+from . import gen
 
 A_BINRW = "A3 binrw runtime (Cursor, primitive readers/writers, derive expansion) is executed as compiled code by Kani, not verified separately"
 A_KANI = "Kani 0.68 / CBMC 6.11 soundness (bit-precise semantics of the compiled MIR); rustc; the harness code under /verif/kani"
@@ -36,5 +37,23 @@ PROPS = {
         "assumptions": [],
         "min_obligations": {"quick": 8, "thorough": 8},
         "uncovered": [],
+    },
+    "C07": {
+        "verus_units": ["gates"],
+        "generators": [gen.gen_c07],
+        "level": "proof",
+        "trusted_base": [A_KANI],
+        "assumptions": [],
+        "min_obligations": {"quick": 3, "thorough": 3},
+        "uncovered": ["the call site inside Framed::read (reply written before the keep-alive is returned, exactly once) - see C05 harnesses when claimed"],
+    },
+    "C09": {
+        "verus_units": ["gates"],
+        "generators": [gen.gen_c09],
+        "level": "proof",
+        "trusted_base": [A_KANI],
+        "assumptions": [],
+        "min_obligations": {"quick": 2, "thorough": 2},
+        "uncovered": ["the call site inside Framed::read (gate applied iff verify_version)"],
     },
 }
